@@ -8,6 +8,9 @@
            no TLS certificates, listen error, no listeners)
      ae    Accept returned an error      pk.p  ReadFrom returned packet p
      re    ReadFrom returned an error    sf    non-temporary listener error injected
+     ps.p  ReadFrom returned datagram p of fewer than 12 octets (no worker is created)
+     ig.c  the server is about to drop / reject the message read on connection c (packet c)
+           without calling the handler (no header, MsgAcceptFunc, body does not unpack)
      sr.v  serve call returned (0 nil, 1 error)
      rq.c  request read on connection c  rx.c  read on connection c failed
      he.c  handler entered               rp.c  reply written      hx.c  handler about to return
@@ -50,6 +53,8 @@ Definition parse_event (s : string) : option label :=
   else if String.eqb k "ao" then Some (SAcceptOk a)
   else if String.eqb k "ae" then Some SAcceptErr
   else if String.eqb k "pk" then Some (SPacket a)
+  else if String.eqb k "ps" then Some (SPacketShort a)
+  else if String.eqb k "ig" then Some (WDrop a)
   else if String.eqb k "re" then Some SReadErr
   else if String.eqb k "sf" then Some SFatal
   else if String.eqb k "sr" then Some (SReturn (match a with O => RNil | _ => RErr end))
